@@ -20,6 +20,8 @@ RULE = ("Cases = (op, matrix, parameter, copy flag). threshold_proportional: non
         "the cut, p*possible is exactly a half-integer, or fewer connections exist than requested; (absolute) some entry equals thr exactly; "
         "(others) matrix has negative and zero entries. Distinct by hash of the case.")
 BOUNDS = {"n": "2..8", "p": "dyadic a/2^m (m<=6) and a/b (b<=40)", "weights": "k/4 (proportional), +-k/8 and floats (others)"}
+# units additionally driven by libFuzzer coverage feedback through hypothesis.fuzz_one_input (bctverif/fuzz.py)
+FUZZ_UNITS = {"quick": ["threshold_proportional", "other-utilities"], "thorough": ["threshold_proportional", "other-utilities"]}
 MIN_NONTRIVIAL = {"quick": 300, "thorough": 3000}
 
 
